@@ -444,6 +444,41 @@ class ExcFlow:
             out.append(EXTERNAL_ALIASES.get(r, r))
         return out
 
+    def _patched_by_callee(self, call, excname, depth, fi=None):
+        """Attributes of the caught exception assigned by a helper that the
+        handler hands the exception to (`self._add_position(e)`)."""
+        fi = fi or self._fi
+        pos = [i for i, a in enumerate(call.args)
+               if isinstance(a, ast.Name) and a.id == excname]
+        kw = [k.arg for k in call.keywords
+              if isinstance(k.value, ast.Name) and k.value.id == excname]
+        if not pos and not kw:
+            return []
+        out = []
+        try:
+            callees = self.P.resolve_call(fi, call)
+        except Exception:
+            return []
+        for c in callees:
+            if c.kind != "repo" or c.fn is None:
+                continue
+            params = list(c.fn.params)
+            if c.fn.cls is not None and c.how != "basecall" and params:
+                params = params[1:]
+            names = [params[i] for i in pos if i < len(params)] + [
+                k for k in kw if k in params]
+            for pn in names:
+                for n in ast.walk(c.fn.node):
+                    if isinstance(n, ast.Assign):
+                        for t in n.targets:
+                            if isinstance(t, ast.Attribute) and isinstance(
+                                    t.value, ast.Name) and t.value.id == pn:
+                                out.append(t.attr)
+                    elif isinstance(n, ast.Call) and depth > 1:
+                        out.extend(self._patched_by_callee(n, pn, depth - 1,
+                                                           c.fn))
+        return out
+
     def _try(self, st, cur):
         body = self._block(st.body, cur)
         remaining = dict(body)
@@ -467,6 +502,8 @@ class ExcFlow:
                                     t.value, ast.Name) \
                                     and t.value.id == h.name:
                                 patches.append(t.attr)
+                    elif isinstance(n, ast.Call):
+                        patches.extend(self._patched_by_callee(n, h.name, 2))
             hctx = {"name": h.name, "items": caught, "classes": hcls,
                     "patches": tuple(sorted(set(patches)))}
             hb = self._block(h.body, hctx)
